@@ -480,6 +480,22 @@ def check_setters(fx, rep):
             own = [x for x in stores if mir.place_last_field(x[2]['place'])[1] == F]
             other = sorted({mir.place_last_field(x[2]['place'])[1] for x in stores} - {F})
             ok = len(own) == 1 and own[0][2]['rv']['k'] == 'use' and b.trace(own[0][2]['rv']['op']).get('kind') == 'arg' and not other
+            if not ok and not stores:
+                # functional update `Self { F: v, ..self }`: the value returned is built with F = the argument and every other flag copied from self's same field
+                aggrs = [s_ for blk, i_, s_ in b.iter_assigns() if s_['rv']['k'] == 'aggr' and 'call::Call' in (s_['rv'].get('adt') or '') and s_['rv'].get('fields')]
+                if len(aggrs) == 1:
+                    rv_ = aggrs[0]['rv']
+                    by_f = dict(zip(rv_['fields'], rv_['ops']))
+                    good = F in by_f and b.trace(by_f[F]).get('kind') == 'arg' and b.trace(by_f[F]).get('kind') != 'place'
+                    for g_ in flags:
+                        if g_ == F or g_ not in by_f:
+                            continue
+                        tg = b.trace(by_f[g_])
+                        lf = mir.place_last_field(tg.get('place') or (mir.op_place(by_f[g_]) or {})) if (tg.get('kind') in ('place', 'arg') or mir.op_place(by_f[g_])) else None
+                        if not (lf and lf[1] == g_):
+                            good = False
+                    other = [] if good else other
+                    ok = good
             rep.check(ok, 'R05.9', 'call::Call::%s|stores-only-its-flag' % b.name, b.where(),
                       '%s stores its argument into `%s` and leaves the other flags alone' % (b.name, F),
                       'Call::%s does not just store its argument into `%s`%s: which of the eight flag combinations a Call ends up with then depends on the order of '
